@@ -30,7 +30,7 @@ def pools() -> dict:
         POOLS = {
             "cur": cur, "dep": dep, "exc": exc,
             "ref": ["LicenseRef-custom", "LicenseRef-My.Own-1.0", "LicenseRef-a", "LicenseRef-Proprietary-X9",
-                    "LicenseRef-2-clause", "LicenseRef-scancode-public-domain"],
+                    "LicenseRef-2-clause", "LicenseRef-scancode-public-domain", "LicenseRef-Unknown-vendor", "LicenseRef-MyUnknown1"],
             "unk": ["Nonexistent-9.9", "mit", "Mit", "apache-2.0", "GPL-3.0-or-newer", "LicenseRef-my_licence",
                     "Licenseref-lower", "LicenseRef-with space".replace(" ", "_"), "Custom", "gpl-3.0-or-later", "X11-like"],
         }
